@@ -710,7 +710,15 @@ fn run_real_case(case_seed: u64, rep: &mut Report, verbose: bool) {
             6 => {
                 cx.family = "real: random line pair (angle >= 1e-3) and parallel pairs".into();
                 let p = P2 { x: rng.f64_range(-300.0, 300.0), y: rng.f64_range(-300.0, 300.0) };
-                let a1 = rng.f64_range(0.0, 3.1);
+                // every third pair has one line that is almost (not exactly) axis-parallel: a normalised coefficient as
+                // small as 1e-7 must not be treated as zero, nor amplify rounding errors beyond the 1e-7 bound
+                let lean = 10f64.powf(rng.f64_range(-7.5, -2.0)) * if rng.chance(1, 2) { 1.0 } else { -1.0 };
+                let a1 = match rng.below(6) {
+                    0 => std::f64::consts::FRAC_PI_2 + lean,
+                    1 => lean,
+                    _ => rng.f64_range(0.0, 3.1),
+                };
+                cx.rep.see_str("near_axis_parallel_lines", if rng.below(1) == 0 && (a1 - std::f64::consts::FRAC_PI_2).abs() < 0.02 { "near_vertical" } else if a1.abs() < 0.02 { "near_horizontal" } else { "generic" });
                 let u = rot(P2 { x: 1.0, y: 0.0 }, a1);
                 let l1 = LineDef::Points(p, add(p, scale(u, rng.f64_range(1.0, 100.0))));
                 if rng.chance(1, 4) {
@@ -729,7 +737,11 @@ fn run_real_case(case_seed: u64, rep: &mut Report, verbose: bool) {
                     let q = add(on1, scale(v, rng.f64_range(-100.0, 100.0)));
                     let l2 = LineDef::Points(q, add(q, scale(v, rng.f64_range(1.0, 100.0))));
                     let inside = on1.x.abs() <= 900.0 && on1.y.abs() <= 900.0;
-                    judge_ll(&mut cx, l1, l2, Some(false), inside);
+                    if rng.chance(1, 2) {
+                        judge_ll(&mut cx, l1, l2, Some(false), inside);
+                    } else {
+                        judge_ll(&mut cx, l2, l1, Some(false), inside);
+                    }
                 }
             }
             _ => {
